@@ -1551,10 +1551,12 @@ fn is_option_named(prop: &PropOrSpread, name: &str) -> bool {
     }
 }
 
-/// Whether `name` may be added to the options of this `defineComponent` call: not when a spread
-/// is among the first two arguments, and not when the user already wrote that option.
+/// Whether `name` may be added to the options of this `defineComponent` call: not when the call
+/// has no arguments or a spread is among the first two, and not when the user already wrote that
+/// option.
 fn can_inject_define_component_option(call: &CallExpr, name: &str) -> bool {
-    if call.args.iter().take(2).any(|arg| arg.spread.is_some()) {
+    // without a first argument the options object would become the component itself
+    if call.args.is_empty() || call.args.iter().take(2).any(|arg| arg.spread.is_some()) {
         return false;
     }
     match call.args.get(1).map(|options| &*options.expr) {
